@@ -546,7 +546,8 @@ struct FsWorld {
       } else {
         m.tokens += 2;
         const std::string &t = v[i].target;
-        if (!present.count(t)) { m.errors.push_back({ParseError::FILE_NOT_FOUND, f, line, line, t}); m.requests.insert(t); }
+        if (!present.count(t) && hidden_supplied_by_compile && t == "__standards__") { /* compile() supplies the built-in text: present, no directives in it */ }
+        else if (!present.count(t)) { m.errors.push_back({ParseError::FILE_NOT_FOUND, f, line, line, t}); m.requests.insert(t); }
         else if (std::find(stack.begin(), stack.end(), t) != stack.end()) { m.errors.push_back({ParseError::RECURSIVE_INCLUDE, f, line, line, ""}); m.recursive_seen = true; }
         else if (depth < 40) {
           if (last_inc == t) m.repeated_seq = true;
@@ -558,10 +559,21 @@ struct FsWorld {
       }
     }
   }
-  Model model(const std::set<std::string> &present, const std::string &main) {
+  // `through_compile`: compile() puts an include of the hidden standard-macro file in front of the main file's first token
+  // (same line) and supplies that file itself unless the caller supplied one of that name
+  bool hidden_supplied_by_compile = false;
+  Model model(const std::set<std::string> &present, const std::string &main, bool through_compile = false) {
     Model m;
+    hidden_supplied_by_compile = through_compile;
     if (!present.count(main)) { m.errors.push_back({ParseError::MAIN_FILE_NOT_FOUND, "-", -1, -1, main}); m.requests.insert(main); return m; }
     std::vector<std::string> stack = {main};
+    const std::string H = "__standards__";
+    if (through_compile && present.count(H) && items.count(H) && H != main) {
+      // the user's file of that name is what the hidden include resolves to
+      stack.push_back(H);
+      model_walk(H, present, stack, m, 1);
+      stack.pop_back();
+    }
     model_walk(main, present, stack, m, 0);
     return m;
   }
@@ -658,8 +670,8 @@ struct FsWorld {
       for (auto &kv : st) bytes += (long long)kv.second.size();
       std::set<std::string> all;
       for (auto &kv : st) all.insert(kv.first);
-      Model mm = model(all, main);
-      cm.bytes = bytes; cm.ndefs_bound = 4; cm.scan_limit = 2 * mm.tokens + 256;
+      Model mm = model(all, main, true);
+      cm.bytes = bytes; cm.ndefs_bound = 8; cm.scan_limit = 2 * mm.tokens + 256;
       bool ok = false;
       {
         HookGuard hg(&cm);
@@ -681,16 +693,17 @@ struct FsWorld {
       return ok;
     };
     bool compiled_ok = compile_once(store);
-    if (req != m.requests) {
+    Model mc = model(present, main, true);
+    if (req != mc.requests) {
       std::string a, b;
       for (auto &q : req) a += "'" + q + "' ";
-      for (auto &q : m.requests) b += "'" + q + "' ";
+      for (auto &q : mc.requests) b += "'" + q + "' ";
       ctx.check(false, "C15", "file_requests_exact", "file_requests {" + a + "} expected {" + b + "}");
     }
     // every predicted include error shows up in compile()'s error list at the predicted position (the message text is
     // the library's business and is not looked at)
-    if (!m.errors.empty() && compiled_ok) ctx.check(false, "C15", "compile_reports_include_errors", "include errors were predicted but compile() marked the result correct");
-    for (auto &e : m.errors) {
+    if (!mc.errors.empty() && compiled_ok) ctx.check(false, "C15", "compile_reports_include_errors", "include errors were predicted but compile() marked the result correct");
+    for (auto &e : mc.errors) {
       bool found = false;
       for (auto &l : locs) if (l.file == e.file && l.line >= e.line_lo && l.line <= e.line_hi) found = true;
       if (!found) ctx.check(false, "C15", "compile_reports_include_errors", std::string("compile() reports no error at ") + e.file + ":" + std::to_string(e.line_lo) + " where " + perr_name(e.type) + " is due");
@@ -717,7 +730,7 @@ struct FsWorld {
       for (auto &q : req) if (pristine.count(q)) ctx.check(false, "C15", "provider_loop_ends", "file '" + q + "' was supplied and is still requested");
       std::set<std::string> all;
       for (auto &kv : st) all.insert(kv.first);
-      Model fm = model(all, main);
+      Model fm = model(all, main, true);
       if (req != fm.requests) ctx.check(false, "C15", "file_requests_exact", "after the provider loop the requests differ from the names that exist nowhere");
       // the final store, scanned once more: no missing-file error may remain for a name that was supplied
       {
@@ -883,7 +896,7 @@ Op random_fault(Rng &rng, const Project &p) {
   return o;
 }
 
-const char *ODD_NAMES[] = {"", "a b.theo", "main.theo", "x", "a.b.c", "-", "dir/sub.theo", "//x"};
+const char *ODD_NAMES[] = {"", "a b.theo", "main.theo", "x", "__standards__", "-", "dir/sub.theo", "//x"};
 
 Plan gen_incl_plan(Rng &rng, long long sub, bool thorough) {
   Plan p;
@@ -893,6 +906,7 @@ Plan gen_incl_plan(Rng &rng, long long sub, bool thorough) {
   for (int i = 0; i < nfiles; i++) {
     std::string n = i == 0 ? "main.theo" : "f" + std::to_string(i);
     if (rng.chance(1, 12)) n = ODD_NAMES[rng.below(8)];
+    if (i == 0 && n == "__standards__") n = "main.theo";   // the main file itself is never given the reserved name
     if (std::find(names.begin(), names.end(), n) != names.end()) n += std::to_string(i);
     names.push_back(n);
   }
@@ -1031,7 +1045,7 @@ Plan gen_fs_plan(const std::string &prop, Rng &rng, long long sub, const std::st
   Plan p;
   p.world = "fs";
   if (prop == "C20") {
-    unsigned macros = rng.chance(1, 2) ? (unsigned)rng.below(16) : 0;
+    unsigned macros = rng.chance(1, 2) ? ((unsigned)rng.below(16) | (rng.chance(1, 3) ? (unsigned)MF_TWICE : 0u) | (rng.chance(1, 3) ? (unsigned)MF_ARITH : 0u)) : 0;
     p.proj = valid_project(rng, thorough, macros, false);
     Op o; o.k = "lit_inflate"; o.a = (long long)rng.below(64); o.b = rng.chance(1, 3) ? 10 : rng.range(11, 40); o.c = rng.chance(1, 2);
     if ((macros & (MF_CALL | MF_SWAP | MF_ITE)) && rng.chance(1, 3)) { o.k = "slot_inflate"; o.b = (long long)rng.below(5); }
@@ -1060,7 +1074,7 @@ Plan gen_fs_plan(const std::string &prop, Rng &rng, long long sub, const std::st
     p.note = "macro set through compile()";
     return p;
   }
-  unsigned macros = rng.chance(1, 2) ? (unsigned)rng.below(16) : 0;
+  unsigned macros = rng.chance(1, 2) ? ((unsigned)rng.below(16) | (rng.chance(1, 3) ? (unsigned)MF_TWICE : 0u) | (rng.chance(1, 3) ? (unsigned)MF_ARITH : 0u)) : 0;
   if (rng.chance(1, 5)) macros |= MF_NONLR;   // a definition the compiler must reject (its error position is checked like any other)
   p.proj = valid_project(rng, thorough, macros, rng.chance(1, 10));
   if (thorough && mode < 50) {
